@@ -34,9 +34,9 @@ Example ex_dup2 : exists s', k_dup2 ex1 3 7 = (s', RFd 7%N) /\ 3%N <> 7%N.
 Proof. eexists; split; [vm_compute; reflexivity | discriminate]. Qed.
 
 Example ex_fork :
-  exists s1 r1 s2 s3, k_fork ex1 = (s1, r1) /\ k_lseek s1 3 WEnd (-1) = (s2, ROff 2) /\
-                      k_exit s2 = (s3, RUnit).
-Proof. do 4 eexists. repeat split; vm_compute; reflexivity. Qed.
+  exists s1 s2 s3, k_fork ex1 = (s1, RUnit) /\ k_lseek s1 3 WEnd (-1) = (s2, ROff 2) /\
+                   k_exit s2 = (s3, RUnit).
+Proof. do 3 eexists. repeat split; vm_compute; reflexivity. Qed.
 
 Example ex_nested :
   nested 0 [OClose 3; OChdir [100]%N; OUmask 63; OFork; OClose 0; OExit; OPipe] = true.
